@@ -636,6 +636,11 @@ def body_module(b):
 # provenance
 # ---------------------------------------------------------------------------
 
+def _nt(fs):
+    """fields without the internal `?ok` marker (payload of the value a `?` unwrapped, not yet resolved)"""
+    return tuple(f for f in fs if f != "?ok")
+
+
 def prov(body, x, depth=0, _seen=None, via=(), suffix=()):
     """Flow-insensitive backward slice of an operand or place to a set of Roots."""
     if _seen is None:
@@ -644,12 +649,12 @@ def prov(body, x, depth=0, _seen=None, via=(), suffix=()):
         return prov(body, x["place"], depth, _seen, via, suffix)
     if "k" in x and x["k"] == "const":
         if x.get("fn"):
-            return {Root("fn", norm(x.get("fn_resolved") or x["fn"]), tuple(suffix), tuple(via), None)}
+            return {Root("fn", norm(x.get("fn_resolved") or x["fn"]), _nt(suffix), tuple(via), None)}
         if x.get("closure"):
-            return {Root("closure", norm(x["closure"]), tuple(suffix), tuple(via), None)}
-        return {Root("const", x.get("repr", "?"), tuple(suffix), tuple(via), None)}
+            return {Root("closure", norm(x["closure"]), _nt(suffix), tuple(via), None)}
+        return {Root("const", x.get("repr", "?"), _nt(suffix), tuple(via), None)}
     if "k" in x and x["k"] == "other":
-        return {Root("unknown", "?", tuple(suffix), tuple(via), None)}
+        return {Root("unknown", "?", _nt(suffix), tuple(via), None)}
     # place
     place = x
     l = place["l"]
@@ -657,11 +662,11 @@ def prov(body, x, depth=0, _seen=None, via=(), suffix=()):
     if 1 <= l <= body.argc:
         if body.is_closure and l == 1:
             # closure environment: first field is the captured variable
-            if fields:
-                return {Root("capture", fields[0], fields[1:], tuple(via), None)}
+            if _nt(fields):
+                return {Root("capture", _nt(fields)[0], _nt(fields)[1:], tuple(via), None)}
             return {Root("capture", "<env>", (), tuple(via), None)}
         nm = body.local_name(l) or ("arg%d" % l)
-        return {Root("param", "%d:%s" % (l, nm), fields, tuple(via), None)}
+        return {Root("param", "%d:%s" % (l, nm), _nt(fields), tuple(via), None)}
     key = (l, fields, tuple(via))
     if key in _seen or depth > 40:
         return set()
@@ -669,7 +674,7 @@ def prov(body, x, depth=0, _seen=None, via=(), suffix=()):
     out = set()
     defs = body.defs().get(l, [])
     if not defs:
-        return {Root("undef", "_%d" % l, fields, tuple(via), None)}
+        return {Root("undef", "_%d" % l, _nt(fields), tuple(via), None)}
     if sum(1 for d in defs if not d[3]["p"]) > 1 and "φ" not in via:
         # several reaching definitions (mutable variable): mark the slice as merged
         via = tuple(via) + ("φ",)
@@ -690,24 +695,24 @@ def prov(body, x, depth=0, _seen=None, via=(), suffix=()):
             else:
                 continue
         if kind == "setdiscr":
-            out.add(Root("agg", "#" + payload["variant"], rest, tuple(via), bb))
+            out.add(Root("agg", "#" + payload["variant"], _nt(rest), tuple(via), bb))
             continue
         if kind == "call":
             t = payload
             names = callee_names(t)
             cd = callee_def(t)
             if cd is None:
-                out.add(Root("call", "<indirect>", rest, tuple(via), bb))
+                out.add(Root("call", "<indirect>", _nt(rest), tuple(via), bb))
                 continue
             if cd == "std::ops::Try::branch" and len(rest) >= 2 and rest[0] == "#Continue" and rest[1] == "0":
                 # `x?`: the Continue payload is the Ok/Some payload of x
-                out |= prov(body, t["args"][0], depth + 1, _seen, tuple(via) + ("?",), rest[2:])
+                out |= prov(body, t["args"][0], depth + 1, _seen, tuple(via) + ("?",), ("?ok",) + tuple(rest[2:]))
                 continue
             if names & _transparent() and t["args"]:
                 short = cd.rsplit("::", 1)[-1]
                 out |= prov(body, t["args"][0], depth + 1, _seen, tuple(via) + (short,), rest)
             else:
-                out.add(Root("call", callee(t), rest, tuple(via), bb))
+                out.add(Root("call", callee(t), _nt(rest), tuple(via), bb))
             continue
         rv = payload
         k = rv["k"]
@@ -715,10 +720,21 @@ def prov(body, x, depth=0, _seen=None, via=(), suffix=()):
             out |= prov(body, rv["op"], depth + 1, _seen, via, rest)
         elif k in ("ref", "copyforderef", "rawptr"):
             out |= prov(body, rv["place"], depth + 1, _seen, via, rest)
+        elif k == "aggregate" and rest and rest[0] == "?ok":
+            # the value a `?` unwraps was built right here: Ok(x) / Some(x) hands x on, Err / None never gets past the `?`
+            if rv.get("agg") == "adt" and rv.get("variant") in ("Ok", "Some") and rv["fields"]:
+                out |= prov(body, rv["fields"][0]["op"], depth + 1, _seen, via, rest[1:])
+            elif rv.get("agg") == "adt" and rv.get("variant") in ("Err", "None"):
+                pass
+            else:
+                out.add(Root("agg", agg_name(rv), _nt(rest), tuple(via), bb))
         elif k == "aggregate":
             if rest and rv.get("agg") in ("adt", "tuple", "closure"):
                 f0 = rest[0]
                 r2 = rest[1:]
+                if f0.startswith("#") and rv.get("agg") == "adt" and rv.get("variant") and f0[1:] != rv["variant"] \
+                        and not f0[1:].isdigit() and body.raw.get("desugared") is not None:
+                    continue        # payload of another variant than the one built here: not a feasible flow
                 if f0.startswith("#") and r2:
                     # downcast then field
                     f0 = r2[0]
@@ -729,22 +745,22 @@ def prov(body, x, depth=0, _seen=None, via=(), suffix=()):
                         out |= prov(body, f["op"], depth + 1, _seen, via, r2)
                         hit = True
                 if not hit:
-                    out.add(Root("agg", agg_name(rv), rest, tuple(via), bb))
+                    out.add(Root("agg", agg_name(rv), _nt(rest), tuple(via), bb))
             else:
-                out.add(Root("agg", agg_name(rv), rest, tuple(via), bb))
+                out.add(Root("agg", agg_name(rv), _nt(rest), tuple(via), bb))
         elif k == "unop":
             if rv["op"] == "Neg":
                 out |= prov(body, rv["x"], depth + 1, _seen, tuple(via) + ("neg",), rest)
             elif rv["op"] == "Not":
                 out |= prov(body, rv["x"], depth + 1, _seen, tuple(via) + ("not",), rest)
             else:
-                out.add(Root("op", rv["op"], rest, tuple(via), bb))
+                out.add(Root("op", rv["op"], _nt(rest), tuple(via), bb))
         elif k == "binop":
-            out.add(Root("op", rv["op"], rest, tuple(via), bb))
+            out.add(Root("op", rv["op"], _nt(rest), tuple(via), bb))
         elif k == "discriminant":
-            out.add(Root("discr", "discr", rest, tuple(via), bb))
+            out.add(Root("discr", "discr", _nt(rest), tuple(via), bb))
         else:
-            out.add(Root("unknown", k, rest, tuple(via), bb))
+            out.add(Root("unknown", k, _nt(rest), tuple(via), bb))
     return out
 
 
